@@ -1,7 +1,8 @@
 (* Model of the identifier derive macros (sea-query-derive/src/lib.rs, src/iden/{attr,write_arm,mod}.rs),
    of heck 0.4.1's snake_case / PascalCase (heck/src/lib.rs `transform`, `lowercase`, `capitalize`,
    non-unicode `get_iterator`: sea-query-derive depends on heck with default-features = false) and of the
-   default methods of trait Iden (src/types.rs; `iden_prepare` in Model/Literal.v).
+   default methods of trait Iden (src/types.rs; general_prepare below, which is `iden_prepare` of
+   Model/Literal.v when left = right).
    Definitions only.
 
    heck: the non-unicode word iterator splits on every char that is not an ASCII alphanumeric, so the
@@ -293,12 +294,25 @@ Definition has_fast_prepare (t : tydef) : bool :=
   | DEnumDef _ _ _ => false
   end.
 
-Definition fast_prepare (q : N) (name : str) : str := q :: name ++ [q].
+(* Quote(left, right) of src/types.rs: two bytes; left() / right() are char::from(byte). *)
+Record quote := { q_left : N; q_right : N }.
+Definition sym_quote (q : N) : quote := {| q_left := q; q_right := q |}.
+
+(* trait Iden, default methods (src/types.rs):
+     quoted(q)  = to_string().replace(right, right right)     -- the RIGHT quote byte is doubled
+     prepare(q) = left, quoted(q), right
+   (from_utf8 of the single right byte: the byte must be ASCII, otherwise quoted panics; the theorems
+   ask for an ASCII right byte) *)
+Definition general_quoted (q : quote) (name : str) : str := replace_char (q_right q) [q_right q; q_right q] name.
+Definition general_prepare (q : quote) (name : str) : str := q_left q :: general_quoted q name ++ [q_right q].
+
+(* the prepare override the derive emits: write left, unquoted, right *)
+Definition fast_prepare (q : quote) (name : str) : str := q_left q :: name ++ [q_right q].
 
 (* Iden::prepare of the derived impl: the generated fast path if present, else the trait default *)
-Definition derived_prepare (menv : method_env) (q : N) (t : tydef) (v : value) : option str :=
+Definition derived_prepare (menv : method_env) (q : quote) (t : tydef) (v : value) : option str :=
   match unquoted menv t v with
-  | Some name => Some (if has_fast_prepare t then fast_prepare q name else iden_prepare q name)
+  | Some name => Some (if has_fast_prepare t then fast_prepare q name else general_prepare q name)
   | None => None
   end.
 
